@@ -1001,6 +1001,11 @@ func (s *Store) monitorLeaseAsPrimary(ctx context.Context, lease Lease) error {
 
 		case nodeID := <-lease.HandoffCh():
 			if err := s.processHandoff(ctx, nodeID, lease); err != nil {
+				// The handoff renews the lease first. If that reports the lease gone,
+				// this node is no longer the primary and must not carry on as one.
+				if err == ErrLeaseExpired {
+					return err
+				}
 				log.Printf("%s: handoff unsuccessful, continuing as primary", FormatNodeID(s.id))
 				continue
 			}
